@@ -153,7 +153,8 @@ fn update_tree(kind: u8, field: String, structural: bool) -> UpdateStatement {
 // recursion: with the memcmp loops of 6-7 byte names needing unwind >= 8, CBMC unfolds the infeasible
 // recursive arms 8 deep and the query did not finish in 400 s. The 4-byte name "mode" keeps the bound
 // at 6.)
-// @check id=C16 tier=thorough cap=1500 role=guard_update_injected_tree harness=c16_guard_update_assertion_len4
+// (1500 s were not enough either: expected not decided)
+// @check id=C16 tier=thorough cap=600 role=guard_update_injected_tree harness=c16_guard_update_assertion_len4
 // @fns parser::kml::guard_update, parser::kml::bound_kind_of, parser::kml::guard_immutable_field, parser::kml::guard_structural_mutation
 // @bound an injected UPDATE ?a SET FIELDS { <name>: null } WHERE { ?a ASSERTION {} } with every printable name of length 4, or UNSET STRUCTURAL instead (symbolic choice)
 #[kani::proof]
